@@ -86,10 +86,18 @@ theorem endBlock_preserves (cfg : Cfg) (U : List Bytes) (st : State) (n : Nat) (
     rw [this]
     omega
 
+theorem inv_wealth_congr (cfg : Cfg) (U : List Bytes) (st st' : State) (hl : st'.live = st.live) (hb : st'.bal = st.bal)
+    (hp : st'.pending = st.pending) (he : st'.escrow = st.escrow) (hinv : Inv cfg U st) :
+    Inv cfg U st' ∧ wealth cfg U st' = wealth cfg U st := by
+  refine ⟨⟨recKeyed_of_live cfg st st' hl hinv.rk, clean_of_live cfg U st st' hl hinv.clean, by rw [hp]; exact hinv.pn,
+    by unfold A20; rw [he, hp]; exact hinv.a20⟩, ?_⟩
+  unfold wealth
+  rw [balTotal_of_bal st st' hb, stakeTotal_of_live cfg U st st' hl, hp, escTotal_of_escrow st st' he]
+
 /-- Side conditions of a whole history, checked step by step along the run. -/
 def RunSide (cfg : Cfg) (U : List Bytes) : State → List Op → Prop
   | _, [] => True
-  | st, .tx t :: ops => TxOK cfg t ∧ TxSide cfg U st t ∧ RunSide cfg U (runTx cfg st t).2 ops
+  | st, .tx t :: ops => TxOK cfg t ∧ TxSide cfg U st t ∧ RunSide cfg U (pkAfter t (runTx cfg st t)).2 ops
   | st, .endBlock n :: ops => RunSide cfg U (endBlock st n) ops
 
 theorem run_preserves (cfg : Cfg) (U : List Bytes) (st : State) (ops : List Op) (hc : CodecId cfg) (hraw : RawOK cfg)
@@ -101,9 +109,11 @@ theorem run_preserves (cfg : Cfg) (U : List Bytes) (st : State) (ops : List Op) 
     cases o with
     | tx t =>
       obtain ⟨hok, hts, hrest⟩ := hside
-      obtain ⟨hi, hw⟩ := runTx_preserves cfg U st t hc hraw hsome hs hn hinv hok hts
-      obtain ⟨hi2, hw2⟩ := ih (runTx cfg st t).2 hi hrest
-      exact ⟨hi2, hw2.trans hw⟩
+      obtain ⟨hi0, hw0⟩ := runTx_preserves cfg U st t hc hraw hsome hs hn hinv hok hts
+      have hf := pkAfter_fields t (runTx cfg st t)
+      obtain ⟨hi, hw1⟩ := inv_wealth_congr cfg U _ (pkAfter t (runTx cfg st t)).2 hf.2.1 hf.2.2.2.1 hf.2.2.2.2.1 hf.2.2.2.2.2.1 hi0
+      obtain ⟨hi2, hw2⟩ := ih (pkAfter t (runTx cfg st t)).2 hi hrest
+      exact ⟨hi2, hw2.trans (hw1.trans hw0)⟩
     | endBlock n =>
       obtain ⟨hi, hw⟩ := endBlock_preserves cfg U st n hinv
       obtain ⟨hi2, hw2⟩ := ih (endBlock st n) hi hside
